@@ -28,6 +28,8 @@ def gen_files(ctx, label, n):
         messy = rng.random() < 0.5
         text = instgen.render(ast, rng if messy else None, trailer=rng.random() < 0.5,
                               final_newline=rng.random() < 0.8)
+        if k % 9 == 4:
+            text = text.replace('\n', '\r\n')          # DOS line ends (read through Python's universal newlines)
         yield dict(text=text, na=ast['na'], twopl=twopl, ast=ast, messy=messy)
         if k % 3 == 0:
             # the same unchanged file read again under the other -twopl setting
